@@ -67,7 +67,20 @@ def source(h: Sequence[Tuple[int, ...]], members: str = '', generic: bool = Fals
             bl = ['Generic[T]']
         L.append(f'class C{i}({", ".join(bl)}):' if bl else f'class C{i}:')
         body: List[str] = []
-        if members:
+        # 'B=<digits>': those classes define nothing themselves; 'P': every class looks its inherited members up while it is being parsed
+        bare = {int(c) for c in members.split('B=')[1].split(';')[0]} if 'B=' in members else set()
+        if 'P' in members and i not in bare:
+            anc: set = set()
+            todo = list(bases)
+            while todo:
+                x = todo.pop()
+                if x not in anc:
+                    anc.add(x)
+                    todo += list(h[x])
+            probes = [''.join(map(str, P)) for P in subsets(len(h)) if i not in P and set(P) & anc]
+            if probes:
+                body.append(f'    def zz_probe_{i}(self):\n' + '\n'.join(f'        self.m_{t} = wrap(self.m_{t})' for t in probes))
+        if members and i not in bare:
             for P in subsets(len(h)):
                 if i in P:
                     tag = ''.join(map(str, P))
@@ -110,6 +123,17 @@ def pyclasses(h: Sequence[Tuple[int, ...]], members: str = '') -> List[Optional[
     return out
 
 
+_LOOKUP: List[Any] = []
+
+
+def _lookup() -> Any:
+    if not _LOOKUP:
+        from importlib.resources import files
+        from pydoctor.templatewriter import TemplateLookup
+        _LOOKUP.append(TemplateLookup(files('pydoctor.themes') / 'base'))
+    return _LOOKUP[0]
+
+
 def nontrivial(h: Sequence[Tuple[int, ...]]) -> bool:
     return any(len(b) >= 2 for b in h)
 
@@ -118,6 +142,7 @@ def check_system(s: Any, modname_of: Any, chunk: Sequence[Any], members: str, re
     from pydoctor import model
     from pydoctor.templatewriter import util
     from pydoctor.templatewriter.pages import get_override_info
+    from pydoctor.templatewriter import pages
     from pydoctor.stanutils import flatten
     from pydoctor import epydoc2stan
     mro_msgs = [m for sec, m, t in s.messages if sec == 'mro']
@@ -178,6 +203,26 @@ def check_system(s: Any, modname_of: Any, chunk: Sequence[Any], members: str, re
                     res['violations'].append(core.violation(f'{variant}/inherited-doc{quirk}', f'C{ci}.{n} of {h}: docstring {gotdoc!r}, inspect.getdoc gives {expdoc!r}', case))
                 if inherited.get(n) != definer:
                     res['violations'].append(core.violation(f'{variant}/member-table', f'C{ci}.{n} of {h}: listed as inherited from {inherited.get(n)}, defined in {definer}', case))
+            # the rendered class page: the "Inherited from X" tables list exactly the members attribute lookup finds in X
+            if variant.startswith('plain'):
+                html = flatten(pages.ClassPage(ob=cls, template_lookup=_lookup()))
+                block = html[html.find('id="splitTables"'):html.find('id="childList"')]
+                shown = set()
+                for part in block.split('class="inheritedFrom"')[1:]:
+                    owner = re.search(r'Inherited from <code><a[^>]*title="([^"]+)"', part)
+                    for row in re.findall(r'<tr class="base[^"]*">.*?</tr>', part, flags=re.S):
+                        t = re.search(r'title="([^"]+)"', row)
+                        if owner and t and t.group(1).split('.')[-1].startswith(('m_', 'd_', 'e_')):
+                            shown.add((owner.group(1).split('.')[-1], t.group(1).split('.')[-1]))
+                want = set()
+                for n in names:
+                    definer = next(k for k in py[ci].__mro__ if n in vars(k)).__name__
+                    if definer != f'C{ci}':
+                        want.add((definer, n))
+                if shown != want:
+                    own = 'no-own-members' if not any(n in vars(py[ci]) for n in names) else 'own-members'
+                    res['violations'].append(core.violation(f'{variant}/rendered-inherited-tables/{own}',
+                                                            f'page of C{ci} of {h}: inherited tables show {sorted(shown - want)} extra, miss {sorted(want - shown)}', case))
             for n in [x for x in vars(py[ci]) if x.startswith('m_')]:
                 nxt = [k.__name__ for k in py[ci].__mro__[1:-1] if n in vars(k)]
                 info = flatten(list(get_override_info(cls, n)))
@@ -372,6 +417,13 @@ def jobs(tier: str) -> Iterable[Tuple[str, Any]]:
         yield ('members:classes<=4', ('full', 4, start, 10, 'md', False))
     for start in range(0, 160, 10):
         yield ('members-empty-doc:classes<=4', ('full', 4, start, 10, 'e', False))
+    # classes that define nothing themselves (every non-empty choice of them), and parse-time lookups of inherited members
+    for n in (2, 3, 4):
+        for mask in subsets(n):
+            yield (f'members-bare-classes:classes<={n}', ('full', n, 0, 10 ** 9, 'mB=' + ''.join(map(str, mask)), False))
+    for start in range(0, 160, 20):
+        yield ('members-parse-time-lookups:classes<=4', ('full', 4, start, 20, 'mP', False))
+    yield ('members-parse-time-lookups:classes<=3', ('full', 3, 0, 10 ** 9, 'mdP', False))
     # (3) generic-subscripted bases
     for start in range(0, 160, 40):
         yield ('generic:classes<=4', ('full', 4, start, 40, '', True))
